@@ -65,7 +65,7 @@ RULE = (
     "between any two owners; remove_child; add_child; replace_child; run; pull) with nodes idle, failed and in "
     "flight on a controllable executor; families: general, owner-level, multi-panel copies with a refusal in "
     "every panel position and every pre-existing-connection configuration, editing around running nodes, "
-    "injected per-channel refusals (order of the two half-removals), lifecycle (pickle round trips, by-value "
+    "injected per-channel refusals (robustness only: not compared after the first injected refusal), calls, lifecycle (pickle round trips, by-value "
     "executors, injected nodes, for-node rebuilds; every channel created on the way joins the scanned table); non-trivial = at least 3 operations changed "
     "some connection list; distinct by canonical case"
 )
@@ -716,8 +716,9 @@ def _gen_calls(rng, tier):
 
 def _gen_inject(rng, tier):
     """fault injection: chosen channel objects refuse `connect`/`disconnect` at entry (an instance-level
-    wrapper installed by the harness). Checks the ORDER of the two half-removals of the real
-    `Channel.disconnect` against the step-by-step model; the oracle does not judge these cases."""
+    wrapper installed by the harness). Up to the first injected refusal the history is compared like any other;
+    afterwards it only has to run (no harness error): neither the oracle nor the correspondence judge states that
+    only a harness-made fault can produce -- the order of the two half-removals is an implementation detail."""
     g = _G(rng, nonstrict=[], maps={"0": {"inputs": {}, "outputs": {}}, "1": {"inputs": {}, "outputs": {}}})
     g.wire_some(rng.randint(4, 10))
 
@@ -1880,9 +1881,11 @@ def model_input(case, impl=None):
         if st["res"] == "malformed":
             lines.append("malformed " + " ".join(str(x) for x in op))
             continue
-        if op[0] in ("lock", "unlock") and st["res"] == "ok":
-            lines.append(f"{op[0]} {op[1]}")
-            continue
+        if op[0] == "lock":
+            # From the first injected refusal on the lists are no longer compared: WHICH half goes first, and whether the
+            # partner is asked at all, is not constrained by the property (an implementation that drops the back-reference
+            # directly never consults the partner) -- comparing it made a property-preserving optimisation fire
+            break
         if not _is_modelled(st):
             # nothing happened (skipped), or an injected fault left the alphabet: take the observed state
             lines += _setconns(st["snap"])
@@ -1961,7 +1964,9 @@ def corr_view(case, impl):
     for st in impl["states"]:
         if st["res"] == "malformed":
             out.append("bad-op")
-        elif st["op"][0] in ("lock", "unlock"):
+        elif st["op"][0] == "lock":
+            break  # (see model_input)
+        elif st["op"][0] == "unlock":
             continue
         elif _is_modelled(st):
             out.extend(_lines(st))
